@@ -212,6 +212,91 @@ impl C07 {
 
 impl Monitor for C07 {
     fn step(&mut self, w: &mut World, s: &Step, rep: &mut Reporter) {
+        self.judge(w, s, rep);
+        if s.idx % self.schedule_every == self.schedule_every - 1 {
+            self.schedules(w, s, rep);
+        }
+        if s.idx % 400 == 123 {
+            self.many_farms_probe(w, s, rep);
+        }
+    }
+}
+
+impl C07 {
+    /// one message executed in a fork, fed to the ledger and judged like any other
+    fn forked(&mut self, w: &mut World, op: &Op, idx: usize, rep: &mut Reporter) -> bool {
+        let pre = crate::ops::observe(w);
+        let fpre = fobserve(w);
+        let pre_snap = w.snapshot();
+        let out = w.apply(op);
+        let post = crate::ops::observe(w);
+        let fpost = fobserve(w);
+        let st = Step { idx, op, pre_snap: &pre_snap, pre: &pre, out: &out, post: &post, fpre: &fpre, fpost: &fpost };
+        self.judge(w, &st, rep);
+        out.is_ok()
+    }
+
+    /// forked: the owner raises the farm limit, more than ten farms (auto and explicit
+    /// identifiers, several reward tokens) run on one LP token, time passes, and every staker of
+    /// that LP token claims - each claim judged by the ordinary clauses
+    fn many_farms_probe(&mut self, w: &mut World, s: &Step, rep: &mut Reporter) {
+        use crate::wfarm::{farm_funds, farm_op, fm_config_op};
+        use mantra_dex_std::farm_manager::{FarmAction, FarmParams};
+        let cur = match s.fpost.epoch {
+            Some(e) => e,
+            None => return,
+        };
+        let stakers: Vec<(Addr, String)> = s.fpost.positions.values().filter(|p| p.open).map(|p| (p.receiver.clone(), p.lp_asset.denom.clone())).collect();
+        let lp = match stakers.choose(&mut self.rng) {
+            Some((_, lp)) => lp.clone(),
+            None => return,
+        };
+        let snap = w.snapshot();
+        let saved = self.ledger.clone();
+        let owner = w.owner.clone();
+        let limit = s.fpost.cfg.max_concurrent_farms.max(14);
+        if !self.forked(w, &fm_config_op(&owner, |p| p.max_concurrent_farms = Some(limit)), s.idx, rep) {
+            self.ledger = saved;
+            w.restore(&snap);
+            return;
+        }
+        let fee = s.fpost.cfg.create_farm_fee.clone();
+        let denoms = ["uusdc", "uom", "uusdt", "uwbtc"];
+        let mut made = 0usize;
+        for k in 0..16usize {
+            let live = fobserve(w).farms.values().filter(|f| f.lp_denom == lp).count();
+            if live >= 13 {
+                break;
+            }
+            let reward = coin(self.rng.gen_range(3_000..3_000_000u128), denoms[k % denoms.len()]);
+            let id = if k % 3 == 0 { Some(format!("many{}x{k}", s.idx)) } else { None };
+            let who = w.users[k % w.users.len()].clone();
+            let span = self.rng.gen_range(2..6u64);
+            let op = farm_op(&who, FarmAction::Create { params: FarmParams { lp_denom: lp.clone(), start_epoch: Some(cur + 1), preliminary_end_epoch: Some(cur + 1 + span), curve: None, farm_asset: reward.clone(), farm_identifier: id } }, farm_funds(&reward, &fee));
+            if self.forked(w, &op, s.idx, rep) {
+                made += 1;
+            }
+        }
+        let live = fobserve(w).farms.values().filter(|f| f.lp_denom == lp).count();
+        let day = w.cfg.epoch_duration;
+        for _ in 0..3 {
+            self.forked(w, &Op::Advance { secs: day }, s.idx, rep);
+            let mut who: Vec<Addr> = stakers.iter().filter(|(_, l)| *l == lp).map(|(a, _)| a.clone()).collect();
+            who.sort();
+            who.dedup();
+            for u in who {
+                if self.rng.gen_range(0..3) != 0 {
+                    self.forked(w, &claim_op(&u, None), s.idx, rep);
+                }
+            }
+        }
+        rep.count("share_exact", &format!("many_farms_probe: farms on the LP token {}", if live > 10 { "> 10" } else { "<= 10" }));
+        let _ = made;
+        self.ledger = saved;
+        w.restore(&snap);
+    }
+
+    fn judge(&mut self, w: &mut World, s: &Step, rep: &mut Reporter) {
         let fm_addr = w.fm.to_string();
         if let Op::Fm { sender, msg: fm::ExecuteMsg::Claim { until_epoch }, funds } = s.op {
             if let (Some(cur), true) = (s.fpre.epoch, funds.is_empty()) {
@@ -292,9 +377,6 @@ impl Monitor for C07 {
             }
         } else if s.out.is_ok() {
             self.ledger.observe_op(&fm_addr, s.fpre, s.fpost);
-        }
-        if s.idx % self.schedule_every == self.schedule_every - 1 {
-            self.schedules(w, s, rep);
         }
         let _ = fobserve as fn(&World) -> crate::wfarm::FObs;
     }
